@@ -100,9 +100,12 @@ func (s *listSubj[T]) GenOp(r *Rng, id int, c *Client) Op {
 	size := len(s.m)
 	dom := len(s.d.Tab)
 	hasApp := s.cfg.Kind != "arraylist"
-	w := []int{10, 4, 4, 10, 8, 6, 5, 2, 1}
+	w := []int{10, 4, 4, 10, 8, 6, 5, 2, 1, 0}
 	if !hasApp {
 		w[1], w[2] = 0, 0
+	}
+	if size > 0 && size <= 24 && s.cfg.Mode != "big" {
+		w[9] = 1 // the list's own Values() handed back to it
 	}
 	switch c.Role {
 	case "grower":
@@ -146,6 +149,14 @@ func (s *listSubj[T]) GenOp(r *Rng, id int, c *Client) Op {
 		return Op{ID: id, N: "Swap", A: []int{genPos(r, size), genPos(r, size)}}
 	case 7:
 		return Op{ID: id, N: "Sort"}
+	case 9:
+		if hasApp && r.P(1, 3) {
+			return Op{ID: id, N: "PrependOwn"}
+		}
+		if r.P(1, 2) {
+			return Op{ID: id, N: "InsertOwn", A: []int{genPos(r, size)}}
+		}
+		return Op{ID: id, N: "AddOwn"}
 	}
 	return Op{ID: id, N: "Clear"}
 }
@@ -184,6 +195,14 @@ func (s *listSubj[T]) ModelApply(op Op) {
 		slices.SortStableFunc(s.m, s.d.Cmp)
 	case "Clear":
 		s.m = nil
+	case "AddOwn":
+		s.m = append(slices.Clone(s.m), s.m...)
+	case "PrependOwn":
+		s.m = append(slices.Clone(s.m), s.m...)
+	case "InsertOwn":
+		if a[0] >= 0 && a[0] <= len(s.m) {
+			s.m = slices.Insert(slices.Clone(s.m), a[0], slices.Clone(s.m)...)
+		}
 	case "Fill":
 		s.m = append(slices.Clone(s.m), s.vals(fillIdx(a))...)
 	case "Shrink": // remove from the end until a[0] elements are left
@@ -247,6 +266,21 @@ func (s *listSubj[T]) Step(op Op, o *Oracle) {
 		}
 	case "Clear":
 		s.l.Clear()
+	case "AddOwn", "PrependOwn", "InsertOwn":
+		// the slice Values() returned is handed straight back (the caller's data, like any other argument)
+		vs := ownArgs(s.l.Values())
+		if s.scribble {
+			s.lastArgs = slices.Clone(vs)
+		}
+		switch ap, ok := s.l.(appender[T]); {
+		case op.N == "PrependOwn" && ok:
+			ap.Prepend(vs...)
+		case op.N == "InsertOwn":
+			s.l.Insert(a[0], vs...)
+		default:
+			s.l.Add(vs...)
+		}
+		s.afterCall(vs)
 	case "Fill":
 		s.l.Add(s.vals(fillIdx(a))...)
 	case "Shrink":
@@ -374,6 +408,21 @@ func (s *listSubj[T]) check(o *Oracle) {
 		}
 		if got := s.l.Contains(q...); got != want {
 			o.Fail("C03", "contains-multi", "after %s: Contains(%s)=%v, want %v", o.cur, joinS(q, s.d.Str), got, want)
+		}
+		if len(vals) == len(s.m) && len(vals) <= 300 && derive(o.cur.ID, 7, 4) == 0 {
+			// the list's own Values() handed back: all present; the same arguments with one stranger among them
+			if !s.l.Contains(vals...) {
+				o.Fail("C03", "contains-multi", "after %s: Contains(Values()...) is false; Values() = %s", o.cur, joinS(vals, s.d.Str))
+			}
+			for _, x := range s.d.Probes {
+				if !slices.Contains(s.m, x) {
+					mixed := slices.Insert(slices.Clone(vals), derive(o.cur.ID, 8, len(vals)+1), x)
+					if s.l.Contains(mixed...) {
+						o.Fail("C03", "contains-multi", "after %s: Contains(%s) is true, %s is not in the list", o.cur, joinS(mixed, s.d.Str), s.d.Str(x))
+					}
+					break
+				}
+			}
 		}
 	}
 	checkC15(o, s.l, len(vals), -1, listNames[s.cfg.Kind])
